@@ -1,0 +1,40 @@
+//go:build verif
+
+// Contracts for package store, checked by /verif/govc (comment-only; compiled only with -tags verif).
+package store
+
+// ---- C16: node keys decoded from untrusted proof bytes never crash the verifier --------------------------
+// A key has at least one data byte and the meta byte (or is empty = not yet initialised), and its
+// cached length, when set, is the real length.
+//@ spec func keyShape(k *key) bool = len(k.key) != 1 && (k.length == 0 || k.length == len(k.key)) && k.bitCount >= 0
+
+//@ func (*key).size
+//@   nopanic
+//@   requires k != nil
+//@   ensures[len] result == (old(k.length) == 0 ? len(k.key) : old(k.length))
+
+//@ func (*key).totalBits
+//@   nopanic
+//@   requires[shape] k != nil && keyShape(k)
+
+//@ func (*key).fromBytes
+//@   nopanic
+//@   requires k != nil
+//@   ensures[set] result == k && k.key == data && unchanged(k.length, k.bitCount)
+
+// ---- C16/C10: wiring of the state-commitment tree ----------------------------------------------------------
+//@ func NewTxn
+//@   ensures[fields] result != nil && fresh(result) && result.prefix == prefix && result.reader == reader && result.writer == writer
+
+// the writer (Root) and every reader (NewReadOnly) of the sparse Merkle tree use ONE key prefix:
+// otherwise a historical store sees an empty tree and its proofs never verify against the committed root
+//@ func (*Store).Root
+//@   callsite NewDefaultSMT requires[treeprefix] dyn(arg0, *Txn).prefix == stateCommitIDPrefix
+//@ func (*Store).NewReadOnly
+//@   callsite NewDefaultSMT requires[treeprefix] dyn(arg0, *Txn).prefix == stateCommitIDPrefix
+
+// a proof of fewer than two nodes (target and sibling) is never accepted; node keys decoded from the
+// (untrusted) proof must be shaped like keys before the bit-level code looks at them: that is the
+// precondition of totalBits, checked at its call sites here
+//@ func (*SMT).VerifyProof
+//@   ensures[minlen] result0 ==> len(proof) >= 2
